@@ -121,6 +121,38 @@ def run(rep, tier):
         ands = [n for n in synq.walk(f.body) if n.get("k") == "binary" and n["op"] == "&&" and "name.namespace" in render(n)
                 and "name.name" in render(n)]
         rep.ob("R27.3", "both comparisons are conjoined", len(ands) == 1, "", f.loc())
+        # the counted collection has one element per same-named package, versioned or not: the only selection in the
+        # chain `resolve.packages.iter()...collect()` is the namespace-and-name test
+        counted = [(nm, init) for nm, init, st in synq.bindings(f.body) if init is not None and
+                   init.get("k") == "mcall" and init["method"] == "collect" and "packages" in render(init)]
+        rep.ob("R27.3", "one collection of the same-named packages is counted", len(counted) == 1, f"{[n for n, _ in counted]}", f.loc())
+        if len(counted) == 1:
+            root, ch = chain(counted[0][1])
+            bad = []
+            for m_, args in ch:
+                if m_ in ("iter", "collect", "into_iter", "values"):
+                    continue
+                body = args[0]["body"] if args and args[0].get("k") == "closure" else None
+                txt = render(body) if body is not None else ""
+                is_pred = "name.namespace" in txt and "name.name" in txt
+                if m_ == "filter" and is_pred and "version" not in txt:
+                    continue
+                if m_ == "filter_map" and body is not None:
+                    b = body
+                    while b.get("k") == "block" and len(b["stmts"]) == 1 and b["stmts"][0].get("k") == "expr_stmt":
+                        b = b["stmts"][0]["e"]
+                    if b.get("k") == "if" and is_pred and b.get("else") is not None:
+                        then = render(b["then"])
+                        els = render(b["else"])
+                        cond = render(b["cond"])
+                        if "version" not in cond and then.strip("{ }").startswith("Some(") and els.strip("{ }") == "None":
+                            continue
+                if m_ == "map" and body is not None:
+                    continue
+                bad.append(m_)
+            rep.ob("R27.3", "every package with the same namespace and name is counted, whatever its version", not bad,
+                   f"`{bad}` can drop a same-named package (e.g. the unversioned one) from the count, so a lone versioned "
+                   "sibling keeps the bare name and collides with it", f.loc())
         # `if <count>.len() == 1 { return base }`
         early = []
         for n in synq.walk(f.body):
